@@ -35,6 +35,16 @@ theorem lookup_zip_nodup {α β : Type} [DecidableEq α] (keys : List α) (vs : 
         rw [if_neg this]
         exact ih bs hn' h
 
+theorem flatMap_filter_of_nil {α β : Type} (p : α → Bool) (f : α → List β) (l : List α)
+    (h : ∀ x ∈ l, p x = false → f x = []) : (l.filter p).flatMap f = l.flatMap f := by
+  induction l with
+  | nil => rfl
+  | cons x xs ih =>
+    have ih' := ih (fun y hy => h y (List.mem_cons_of_mem _ hy))
+    cases hp : p x
+    · rw [List.filter_cons_of_neg (by simp [hp]), List.flatMap_cons, ih', h x List.mem_cons_self hp, List.nil_append]
+    · rw [List.filter_cons_of_pos hp, List.flatMap_cons, List.flatMap_cons, ih']
+
 /-- the imported notes with their (part, voice): read from the tracks, each note tagged with the cell of its
     (track, channel) -/
 theorem import_cells (mode ticks : Nat) (tracks : List (List (Int × Msg))) (imp : Imported)
@@ -72,9 +82,12 @@ theorem import_cells (mode ticks : Nat) (tracks : List (List (Int × Msg))) (imp
       apply List.flatMap_congr
       intro c hc
       have hcp : c.2.2.1 = some pid := by simpa using (List.mem_filter.mp hc).2
+      simp only [H, List.map_flatMap]
+      apply List.flatMap_congr
+      intro x _
       apply List.map_congr_left
       intro n _
-      simp only [Function.comp, C04I.strip, noteRow, tagOf, voiceInt, hcp, H]
+      simp only [Function.comp, C04I.strip, noteRow, tagOf, voiceInt, hcp]
       cases c.2.2.2 <;> rfl
   rw [e1, ← List.flatMap_assoc]
   have hz : (trch0.zip gpv).map (fun e => e.2.2.1) = gpv.map (·.2.1) := by
@@ -124,10 +137,12 @@ theorem import_cells (mode ticks : Nat) (tracks : List (List (Int × Msg))) (imp
     rw [← List.map_flatMap, C04G.channelsOf_eq]
     exact (C04G.firstSeen_group_perm (fun n : NoteRec => n.ch) e.2.1).map _
   refine (List.Perm.flatMap_left _ (fun e _ => e3 e)).trans (List.Perm.of_eq ?_)
-  rw [C04I.flatMap_filter_nonempty (fun e : TrackRead => e.2.1.map fun n => (noteRow n, tagOf (lookup (e.1, n.ch) Z0)))]
+  rw [flatMap_filter_of_nil]
   · unfold readTracks
     rw [List.flatMap_map]
     rfl
-  
+  · intro e _ he
+    have : e.2.1 = [] := by simpa using he
+    simp [this]
 
 end C04C
